@@ -7,7 +7,8 @@
    calls becomes n+1 atomic parts with the callee bodies in between, `return`/`raise`/any exception
    leave every enclosing `with` block through its release.  [well_locked] is the lock discipline of
    Sched.v checked on those very trees, for every operation of the property's operation set. *)
-From Coq Require Import Ascii String ZArith List Bool Arith.
+From Coq Require Import Ascii ZArith List Bool Arith.
+From Coq Require Export String.
 From PV Require Import Conc.Sched.
 Import ListNotations.
 Open Scope string_scope.
@@ -123,7 +124,7 @@ Section Den.
 
   Definition prog_of (name : string) : prog :=
     match find_method tbl name with
-    | Some body => den_list (S (length tbl)) [name] body Done Done Done
+    | Some body => den_list (S (List.length tbl)) [name] body Done Done Done
     | None => Bad
     end.
 End Den.
